@@ -36,7 +36,14 @@ func (h *vHist) extendBest(n int) {
 func VerifC19Locator() {
 	maxH := verifParam("maxheight", 20)
 	h := newHist(1000)
-	H := pick("height", maxH+1)
+	// every height up to 8, then a sparse set of longer chains (the locator steps back exponentially)
+	var heights []int
+	for _, x := range []int{0, 1, 2, 3, 4, 5, 6, 7, 8, 12, 17, 25, 40, 64} {
+		if x <= maxH {
+			heights = append(heights, x)
+		}
+	}
+	H := heights[pick("height", len(heights))]
 	h.extendBest(H)
 	// 0-2 side branches forking off the best chain at symbolic heights (lighter than the best chain)
 	nSide := pick("sides", verifParam("maxsides", 1)+1)
@@ -45,7 +52,12 @@ func VerifC19Locator() {
 		nSide = 0
 	}
 	for s := 0; s < nSide; s++ {
-		fork := pick(fmt.Sprintf("fork%d", s), H-1) // parent height 0..H-2
+		var fork int // parent height 0..H-2
+		if H <= 9 {
+			fork = pick(fmt.Sprintf("fork%d", s), H-1)
+		} else {
+			fork = []int{0, H / 2, H - 2}[pick(fmt.Sprintf("fork%d", s), 3)]
+		}
 		p := h.ancestorAt(h.indexOfHash(h.repo.LastHash()), fork)
 		i := len(h.hdr)
 		hd := &wire.BlockHeader{Version: 1, Timestamp: uint32(1600000000 + i), Bits: verifBitsTable[0], Nonce: uint32(5000 + i)}
